@@ -194,13 +194,48 @@ def check_slot(ctx, K):
     ctx.check(R, nl[0] if nl else fn, "n_linear = 1 + poly_trend + n_offsets", len(nl) == 1 and equal(nl[0].value, parse("1 + self.n_poly + self.n_offsets")), "n_linear = %s" % (A.unparse(nl[0].value) if nl else None), key="n_linear")
     # linear name order K, v0, v1...
     gl = ctx.prog.func(PH, "get_linear_equiv_units", R)
-    rr = [s for s in A.walk_local(gl) if isinstance(s, ast.Return)]
-    oko = len(rr) == 1 and isinstance(rr[0].value, ast.Dict) and len(rr[0].value.keys) == 2 and A.str_const(rr[0].value.keys[0]) == "K" and rr[0].value.keys[1] is None \
-        and "enumerate(v_names)" in A.unparse(rr[0].value.values[1])
     vp = ctx.prog.func(PH, "validate_poly_trend", R)
-    vn = [s for s in A.walk_local(vp) if isinstance(s, ast.Assign) and canon(s.targets[0]) == "vtrend_names"]
-    oko = oko and len(vn) == 1 and canon(vn[0].value) == canon(parse("['v{0}'.format(i) for i in range(poly_trend)]"))
-    ctx.check(R, gl, "linear names in the order K, v0, v1, ...", oko, "get_linear_equiv_units / validate_poly_trend changed", key="name-order")
+    oko, why = _name_order(gl, vp)
+    ctx.check(R, gl, "linear names in the order K, v0, v1, ...", oko, why, key="name-order")
+
+
+def _name_order(gl, vp):
+    """get_linear_equiv_units returns {'K': .., **{name: .. for i, name in enumerate(V)}} with V the name list of validate_poly_trend,
+    and that list is [f'v{i}' for i in range(poly_trend)] (insertion order of the dict = column order of the linear block)"""
+    from .C04 import _comp_equal
+    fl = A.Flow(gl)
+    if len(fl.returns) != 1:
+        return False, "get_linear_equiv_units has %d returns" % len(fl.returns)
+    d = fl.returns[0][1].value
+    d = A.inline_temporaries(d, fl.returns[0][1], gl)
+    if not (isinstance(d, ast.Dict) and len(d.keys) == 2 and A.str_const(d.keys[0]) == "K" and d.keys[1] is None):
+        return False, "returned mapping is `%s`: K is not the first key followed by the trend names" % A.unparse(d)[:80]
+    c = d.values[1]
+    if not (isinstance(c, ast.DictComp) and len(c.generators) == 1 and not c.generators[0].ifs):
+        return False, "trend names are not added by one comprehension"
+    g = c.generators[0]
+    it = g.iter
+    if not (isinstance(it, ast.Call) and A.call_name(it) == "enumerate" and len(it.args) == 1 and isinstance(g.target, ast.Tuple) and len(g.target.elts) == 2
+            and canon(c.key) == canon(g.target.elts[1])):
+        return False, "trend names are not taken in enumeration order: `%s`" % A.unparse(c)[:80]
+    src = it.args[0]
+    # V: second element of validate_poly_trend(...)
+    okv = False
+    if isinstance(src, ast.Name):
+        ds = A.reaching_binding_stmt(src.id, fl.returns[0][1])
+        if isinstance(ds, ast.Assign) and isinstance(ds.targets[0], ast.Tuple) and isinstance(ds.value, ast.Call) and A.call_name(ds.value) == "validate_poly_trend":
+            pos = [i for i, e in enumerate(ds.targets[0].elts) if isinstance(e, ast.Name) and e.id == src.id]
+            okv = pos == [1]
+    elif isinstance(src, ast.Subscript) and isinstance(src.value, ast.Call) and A.call_name(src.value) == "validate_poly_trend" and A.const_value(src.slice) == 1:
+        okv = True
+    if not okv:
+        return False, "enumerated names `%s` are not validate_poly_trend(...)[1]" % A.unparse(src)
+    fv = A.Flow(vp)
+    for v, st in fv.returns:
+        r = A.inline_temporaries(st.value, st, vp)
+        if not (isinstance(r, ast.Tuple) and len(r.elts) == 2 and _comp_equal(r.elts[1], parse("[f'v{i}' for i in range(poly_trend)]"))):
+            return False, "validate_poly_trend returns `%s`: names are not v0, v1, ... in order" % A.unparse(r)[:80]
+    return bool(fv.returns), "validate_poly_trend has no return"
 
 
 def _subst_const(e, name, val):
